@@ -13,12 +13,14 @@ TxUDef == <<
   Tx(<<In(0,2), In(0,2)>>, <<Out(1500)>>),                          \* 4: duplicate input (CVE-2018-17144 shape)
   Tx(<<In(99,1)>>, <<Out(1)>>),                                     \* 5: spends an output that never existed
   Tx(<<In(0,2)>>, <<Out(1001)>>),                                   \* 6: creates one satoshi
-  Tx(<<In(1,2), In(3,1)>>, <<Out(800)>>)                            \* 7: spends outputs of 1 and 3
+  Tx(<<In(1,2), In(3,1)>>, <<Out(800)>>),                           \* 7: spends outputs of 1 and 3
+  Tx(<<In(1,1), In(1,2), In(1,1)>>, <<Out(1200)>>)                  \* 8: duplicate input separated by a sibling output of the same tx
 >>
 ListsDef == { <<>>, <<1>>, <<2>>, <<3>>, <<1,3>>, <<3,1>>, <<1,2>>, <<4>>, <<5>>, <<6>>, <<1,3,7>>, <<7>> }
 ListsSmall == { <<>>, <<1>>, <<2>>, <<3>>, <<1,3>>, <<3,1>>, <<1,2>>, <<4>>, <<6>> }
 ListsC01 == { <<>>, <<1>>, <<6>>, <<1,3>>, <<2>> }
-ListsC02 == { <<>>, <<1>>, <<2>>, <<3>>, <<1,3>>, <<3,1>>, <<1,2>>, <<4>>, <<5>> }
+ListsC02 == { <<>>, <<1>>, <<2>>, <<3>>, <<1,3>>, <<3,1>>, <<1,2>>, <<4>>, <<5>>, <<8>> }
 ListsC09 == { <<>>, <<1>>, <<2>>, <<1,3>> }
+ListsC09T == { <<>>, <<1>>, <<2>>, <<1,3>>, <<3>>, <<1,3,7>> }
 BaseDef == << [v |-> 1000, h |-> 1], [v |-> 1000, h |-> 2] >>
 ====
